@@ -118,6 +118,11 @@ Proof.
   change s1 with (fst (s1, arr)). rewrite <- A1. now apply hget_alloc.
 Qed.
 
+Lemma hget_variadic_arg s vtype n vargs a x :
+  hget s a = Some x -> hget (fst (variadic_arg s vtype n vargs)) a = Some x.
+Proof.
+  intros E. unfold variadic_arg. destruct (n =? 0); [exact E|]. now apply hget_new_slice.
+Qed.
 
 (* ---- facts that do not involve the oracles ---------------------------------------------- *)
 
@@ -239,8 +244,7 @@ Section C09.
               if nVar <? 0 then inr (RFail "runtime error" pos s) else
               match popn (Z.to_nat nVar) ops [] with
               | Some (vargs, rest) =>
-                  let e := Type_value vtype in
-                  let (s1, sv) := new_slice s e (map (fun a => Value_assign a e) vargs) in
+                  let (s1, sv) := variadic_arg s vtype nVar vargs in
                   inl (sv :: rest, xArgs - nVar + 1, s1)
               | None => inr (RStuck "variadic arguments")
               end
@@ -323,12 +327,34 @@ Section C09.
 
   (* ---- 3. variadic functions ------------------------------------------------------------------ *)
 
-  (* CALL of a variadic function: the surplus arguments become ONE new slice (appended to the
+  (* CALL of a variadic function, general form: the call proceeds as a call with exactly nargs
+     arguments whose last one is the value [variadic_arg] builds from the surplus arguments *)
+  Lemma call_variadic_gen fuel fa xRets pos fixed extra lo s nargs nrets vtype nslots types body :
+    hget s fa = Some (HFunc nargs nrets true vtype nslots types body) ->
+    zlen fixed = nargs - 1 ->
+    let p := variadic_arg s vtype (zlen extra) extra in
+    callf (S fuel) true fa (zlen fixed + zlen extra) xRets pos (rev extra ++ rev fixed ++ lo)%list s =
+      callf (S fuel) false fa nargs xRets pos (rev (fixed ++ [snd p]) ++ lo)%list (fst p).
+  Proof.
+    intros H HF p.
+    assert (Hh : hget (fst p) fa = Some (HFunc nargs nrets true vtype nslots types body))
+      by (apply hget_variadic_arg; exact H).
+    rewrite !call_fn_S. rewrite H, Hh. cbv zeta. cbn [andb].
+    replace (zlen fixed + zlen extra - nargs + 1) with (zlen extra) by lia.
+    pose proof (zlen_nonneg extra). destruct (zlen extra <? 0) eqn:E; [lia|].
+    rewrite to_nat_zlen, <- (rev_length extra), popn_app_gen, rev_involutive, app_nil_r.
+    fold p. rewrite (surjective_pairing p).
+    replace (zlen fixed + zlen extra - zlen extra + 1) with nargs by lia.
+    rewrite rev_app_distr. cbn [rev app]. reflexivity.
+  Qed.
+
+  (* CALL of a variadic function WITH surplus arguments: they become ONE new slice (appended to the
      heap) of the declared element type, its cells the surplus arguments assigned to that type, in
      order; then the call proceeds as a call with exactly nargs arguments whose last one is that slice *)
   Lemma call_variadic_pack fuel fa xRets pos fixed extra lo s nargs nrets vtype nslots types body :
     hget s fa = Some (HFunc nargs nrets true vtype nslots types body) ->
     zlen fixed = nargs - 1 ->
+    1 <= zlen extra ->
     let e := Type_value vtype in
     let cells := map (fun a => Value_assign a e) extra in
     let s1 := fst (new_slice s e cells) in
@@ -338,20 +364,28 @@ Section C09.
     sv = refV (fn_sliceType e) (zlen (heap s) + 1) /\
     heap s1 = (heap s ++ [HArr cells; HSlice e (zlen (heap s)) 0 (zlen extra) (zlen extra)])%list.
   Proof.
-    intros H HF e cells s1 sv.
-    assert (Hh : hget s1 fa = Some (HFunc nargs nrets true vtype nslots types body))
-      by (apply hget_new_slice; exact H).
+    intros H HF HE e cells s1 sv.
     split; [|split].
-    - rewrite !call_fn_S. rewrite H, Hh. cbv zeta. cbn [andb].
-      replace (zlen fixed + zlen extra - nargs + 1) with (zlen extra) by lia.
-      pose proof (zlen_nonneg extra). destruct (zlen extra <? 0) eqn:E; [lia|].
-      rewrite to_nat_zlen, <- (rev_length extra), popn_app_gen, rev_involutive, app_nil_r.
-      fold e. fold cells. rewrite (surjective_pairing (new_slice s e cells)). fold s1. fold sv.
-      replace (zlen fixed + zlen extra - zlen extra + 1) with nargs by lia.
-      rewrite rev_app_distr. cbn [rev app]. reflexivity.
+    - pose proof (call_variadic_gen fuel fa xRets pos fixed extra lo s nargs nrets vtype nslots types body H HF) as G.
+      cbv zeta in G. unfold variadic_arg in G.
+      destruct (zlen extra =? 0) eqn:E0; [lia|]. exact G.
     - unfold sv, new_slice, alloc. cbn [snd heap]. rewrite zlen_app. reflexivity.
     - unfold s1, new_slice, alloc. cbn [fst heap]. rewrite <- app_assoc. cbn [app].
       unfold cells. rewrite zlen_map. reflexivity.
+  Qed.
+
+  (* CALL of a variadic function WITHOUT surplus arguments: the variadic parameter is the NIL slice of
+     the declared variadic type (no object part), nothing is allocated: the call is the exact-count
+     call on the SAME state with that nil value as last argument *)
+  Lemma call_variadic_none fuel fa xRets pos fixed lo s nargs nrets vtype nslots types body :
+    hget s fa = Some (HFunc nargs nrets true vtype nslots types body) ->
+    zlen fixed = nargs - 1 ->
+    callf (S fuel) true fa (zlen fixed) xRets pos (rev fixed ++ lo)%list s =
+      callf (S fuel) false fa nargs xRets pos (rev (fixed ++ [mkValue vtype (Zn 0) PNone]) ++ lo)%list s.
+  Proof.
+    intros H HF.
+    pose proof (call_variadic_gen fuel fa xRets pos fixed [] lo s nargs nrets vtype nslots types body H HF) as G.
+    cbv zeta in G. change (zlen (@nil value)) with 0 in G. rewrite Z.add_0_r in G. exact G.
   Qed.
 
   (* fewer arguments than the fixed parameters: an error (Go: makeslice: len out of range) *)
